@@ -6,9 +6,10 @@ import PysnarkModel.Gen.Constants
 
 Quantifier: all programs of the instruction language (integer, boolean, fixed-point operators in
 every operand-kind combination, assertions, conversions, selection on values and lists, array
-access, guarded regions with either guard value, configuration changes of bitlength/resolution),
-all input literals, all bitlengths/resolutions, every prime modulus — for runs that complete.
-`out.st.p` is the modulus of the final state (the model has no instruction that changes it).
+access, guarded regions with either guard value NESTED TO ANY DEPTH, `/` in every position,
+configuration changes of bitlength/resolution), all input literals, all bitlengths/resolutions,
+every prime modulus.  `out.st.p` is the modulus of the final state (the model has no instruction
+that changes it).
 -/
 namespace Pysnark
 
@@ -20,37 +21,58 @@ def C01_full : Prop :=
     ∀ out, run (St.init p bl res) prog = out → out.err = none →
       ∀ c ∈ out.st.cons, Sat out.st.p out.st.assign c
 
-/-- proved for `Fragment` (see `Spec/R1CS.lean`): guarded regions not nested, and no `/` in a
-program that also has a guarded region.  Neither exclusion is a known counterexample on the
-repaired tree: nested regions need the value analysis of the AND gadget that computes the
-effective guard (composition missing); the `/` exclusion predates the repair of finding
-C04-div-const and is kept until the repaired arm is re-proved. -/
+/-- **C01 at full strength.**  Nothing is excluded: the effective guard of a nested region
+(`outer & inner`, computed by the bitwise-AND gadget under the outer guard) is analysed in
+`addGuardCore_inv`, both arms of `LinComb / int` in `truedivLI_inv`. -/
+theorem C01 : C01_full := fun p hp bl res prog hset hlit out hout herr =>
+  (run_inv_plain_full p hp bl res prog hset hlit out hout herr).1.sat
+
+/-- Stronger than the property asks: also when the run RAISES, every constraint recorded up to the
+failing instruction is satisfied (the state reported for a failing run is the state before the
+failing instruction with the `guarded` frames unwound). -/
+theorem C01_any (p : Nat) (hp : p.Prime) (bl res : Nat) (prog : List Instr)
+    (hset : ∀ i ∈ prog, i.isSetIgn = false) (hlit : ∀ w, Instr.lit w ∈ prog → w.noSecret = true) :
+    ∀ c ∈ (run (St.init p bl res) prog).st.cons,
+      Sat (run (St.init p bl res) prog).st.p (run (St.init p bl res) prog).st.assign c :=
+  (run_inv_plain_any p hp bl res prog hset hlit).1.sat
+
+/-- the first form of the theorem (for `Fragment`, see `Spec/R1CS.lean`), now a corollary -/
 theorem C01_partial (p : Nat) (hp : p.Prime) (bl res : Nat) (prog : List Instr) (hfrag : Fragment prog)
     (hlit : ∀ w, Instr.lit w ∈ prog → w.noSecret = true)
     (out : Out) (hout : run (St.init p bl res) prog = out) (herr : out.err = none) :
     ∀ c ∈ out.st.cons, Sat out.st.p out.st.assign c :=
-  (run_inv_plain p hp bl res prog hfrag hlit out hout herr).1.sat
+  C01 p hp bl res prog hfrag.1 hlit out hout herr
 
 /-- instances for the three real fields (their primality: C13) -/
 theorem C01_real_fields :
-    (∀ bl res prog, Fragment prog → (∀ w, Instr.lit w ∈ prog → w.noSecret = true) →
+    (∀ bl res prog, NoSetIgn prog → (∀ w, Instr.lit w ∈ prog → w.noSecret = true) →
       ∀ out, run (St.init Spec.bn254_r bl res) prog = out → out.err = none →
         ∀ c ∈ out.st.cons, Sat out.st.p out.st.assign c) ∧
-    (∀ bl res prog, Fragment prog → (∀ w, Instr.lit w ∈ prog → w.noSecret = true) →
+    (∀ bl res prog, NoSetIgn prog → (∀ w, Instr.lit w ∈ prog → w.noSecret = true) →
       ∀ out, run (St.init Spec.bls12_381_r bl res) prog = out → out.err = none →
         ∀ c ∈ out.st.cons, Sat out.st.p out.st.assign c) ∧
-    (∀ bl res prog, Fragment prog → (∀ w, Instr.lit w ∈ prog → w.noSecret = true) →
+    (∀ bl res prog, NoSetIgn prog → (∀ w, Instr.lit w ∈ prog → w.noSecret = true) →
       ∀ out, run (St.init Spec.curve25519_l bl res) prog = out → out.err = none →
         ∀ c ∈ out.st.cons, Sat out.st.p out.st.assign c) :=
-  ⟨fun bl res prog hf hl out ho he => C01_partial _ Spec.bn254_r_prime bl res prog hf hl out ho he,
-   fun bl res prog hf hl out ho he => C01_partial _ Spec.bls12_381_r_prime bl res prog hf hl out ho he,
-   fun bl res prog hf hl out ho he => C01_partial _ Spec.curve25519_l_prime bl res prog hf hl out ho he⟩
+  ⟨fun bl res prog hf hl out ho he => C01 _ Spec.bn254_r_prime bl res prog hf hl out ho he,
+   fun bl res prog hf hl out ho he => C01 _ Spec.bls12_381_r_prime bl res prog hf hl out ho he,
+   fun bl res prog hf hl out ho he => C01 _ Spec.curve25519_l_prime bl res prog hf hl out ho he⟩
 
 /-- the hypothesis on literals cannot be dropped (a literal could smuggle in an incoherent object) -/
 theorem C01_needs_plain_literals :
     ¬ (∀ (p : Nat) (_ : p.Prime) (bl res : Nat) (prog : List Instr) (_ : Fragment prog)
       (out : Out) (_ : run (St.init p bl res) prog = out) (_ : out.err = none),
       Inv out.st ∧ ∀ v ∈ out.regs, GoodV out.st v) := run_inv_needs_hlit
+
+/-- the hypothesis "no `set ign`" cannot be dropped: with error checking switched off by the user
+an assertion that fails on the values records an unsatisfied constraint (that is the documented
+meaning of the mode, not a defect) -/
+theorem C01_needs_no_set_ign :
+    ∃ c ∈ (run (St.init 97 8 8) [.setIgn true, .lit (.int 5), .mk .priv 1, .call .assertZero 2 []]).st.cons,
+      ¬ Sat 97 (run (St.init 97 8 8) [.setIgn true, .lit (.int 5), .mk .priv 1, .call .assertZero 2 []]).st.assign c := by
+  refine ⟨([], [], [(Wire.priv 0, 1)]), by kdec, ?_⟩
+  unfold Sat
+  kdec
 
 /-! non-vacuity: a 14-instruction program with a comparison, a division with remainder, a selection,
 a guarded region with a false guard around an assertion that fails on the values, and a product,
@@ -65,5 +87,29 @@ example : Fragment exProg01 ∧ (∀ w, Instr.lit w ∈ exProg01 → w.noSecret 
   intro w hw
   simp only [exProg01, List.mem_cons, Instr.lit.injEq, List.mem_nil_iff, or_false, reduceCtorEq, false_or, or_false] at hw
   rcases hw with rfl | rfl | rfl <;> simp [Val.noSecret]
+
+/-! non-vacuity for nesting: a region nested two deep — outer guard 1, inner guard 0 (so the
+effective inner guard is `1 & 0 = 0`, computed by the AND gadget under the outer guard) — whose
+inner body divides 7 by 2 (not a multiple: the error-suppressed arm of `LinComb / int`) and by a
+`LinComb`, asserts something false, and whose outer body divides exactly and then fails nowhere.
+Outside `Fragment` (nested, `/` next to a region), inside C01's hypotheses; completes over p = 97
+with 71 constraints; register 9 (`7 / 2` under the false inner guard) holds value 52 = 7·2⁻¹ mod 97
+with wire expression 49·x (49 = 2⁻¹ mod 97): coherent, as C04 says. -/
+def exProg01n : List Instr :=
+  [.lit (.int 7), .mk .priv 0, .lit (.int 1), .mk .privb 2, .lit (.int 0), .mk .privb 4,
+   .genter 3, .genter 5, .lit (.int 2), .bin .truediv 1 8, .mk .priv 8, .bin .truediv 1 10,
+   .call .assertLt 1 [10], .gleave, .bin .truediv 1 1, .call .assertEq 14 [2], .gleave,
+   .bin .add 9 11, .call .val 14 []]
+
+example : ¬ Fragment exProg01n ∧ NoSetIgn exProg01n ∧ (∀ w, Instr.lit w ∈ exProg01n → w.noSecret = true) ∧
+    (run (St.init 97 8 8) exProg01n).err = none ∧ (run (St.init 97 8 8) exProg01n).st.cons.length = 71 ∧
+    (match (run (St.init 97 8 8) exProg01n).regs[9]? with
+      | some (Val.lc x) => x == ⟨52, [(Wire.priv 0, 49)]⟩
+      | _ => false) = true := by
+  refine ⟨fun h => by have := h.2.1; revert this; decide, by unfold NoSetIgn; decide, ?_,
+    by kdec, by kdec, by kdec⟩
+  intro w hw
+  simp only [exProg01n, List.mem_cons, Instr.lit.injEq, List.mem_nil_iff, or_false, reduceCtorEq, false_or, or_false] at hw
+  rcases hw with rfl | rfl | rfl | rfl <;> simp [Val.noSecret]
 
 end Pysnark
